@@ -2069,6 +2069,24 @@ class Models(object):
                 flags.append(1 if c != 0 else 0)
         return self.np_sum(Arr(a.shape, flags, kind='i'), axis=axis, **kw)
 
+    def np_nan_to_num(self, x, copy=True, nan=0.0, posinf=None, neginf=None):
+        """np.nan_to_num: elements known to be NaN take `nan`; symbolic elements stand for finite values (the assumption of
+        every run) and pass unchanged; an explicitly infinite element is not modelled."""
+        a = self.np_asarray(x)
+        out = []
+        for v in a.items():
+            if getattr(v, 'isnan_', None) is not None and v.isnan_() is True:
+                out.append(nan)
+            elif isinstance(v, Poly) and ({'inf', 'nan'} & set(v.atoms())):
+                raise AnalysisError('np.nan_to_num of an explicitly infinite / NaN symbol')
+            else:
+                out.append(v)
+        r = Arr(a.shape, out, kind=a.kind)
+        if not copy and isinstance(x, Arr):
+            x[...] = r
+            return x
+        return r if isinstance(x, Arr) or a.ndim else r.item()
+
     def np_trace(self, a, offset=0):
         a = self.np_asarray(a)
         if a.ndim != 2:
